@@ -157,6 +157,14 @@ def canary_text(text, fn_names):
     return text
 
 
+def write_atomic(path, text):
+    """checks of different properties may run in parallel and share units: a generated file is never seen half-written"""
+    tmp = "%s.%d.tmp" % (path, os.getpid())
+    with open(tmp, "w") as f:
+        f.write(text)
+    os.replace(tmp, path)
+
+
 def run_verus_file(path, timeout=300, rlimit=None):
     cmd = ["verus", path, "--output-json", "--time", "--num-threads", "1"]
     if rlimit:
@@ -251,7 +259,7 @@ def run_verus_unit(unit, repo, want_canary=True):
     tagdir = os.path.join(GEN, hashlib.sha256(repo.encode()).hexdigest()[:8])
     os.makedirs(tagdir, exist_ok=True)
     path = os.path.join(tagdir, uid.replace(".", "_") + ".rs")
-    open(path, "w").write(text)
+    write_atomic(path, text)
     res["extraction"] = meta
     res["generated_file"] = path
     info = run_verus_file(path, rlimit=unit.get("rlimit", DEFAULT_RLIMIT))
@@ -289,7 +297,7 @@ def run_verus_unit(unit, repo, want_canary=True):
             break
         auto.append(name)
         text = text.replace("\nfn main() {}", "\nverus! { pub %s }\nfn main() {}" % ctext.replace("pub ", "", 1), 1)
-        open(path, "w").write(text)
+        write_atomic(path, text)
         info = run_verus_file(path, rlimit=unit.get("rlimit", DEFAULT_RLIMIT))
         status, funcs, fails, smt_ms, nver = classify_verus(info)
     if auto:
@@ -321,7 +329,7 @@ def run_verus_unit(unit, repo, want_canary=True):
                 bad.append("%s(no ensures found)" % n)
                 continue
             cpath = path[:-3] + "_canary_%s.rs" % n
-            open(cpath, "w").write(ctext)
+            write_atomic(cpath, ctext)
             cinfo = run_verus_file(cpath, rlimit=min(unit.get("rlimit", 10), 10))
             cst, _, cfails, _, _ = classify_verus(cinfo)
             failed_fns = set(fn_at_line(ctext, f["line"]) for f in cfails) if cst == "logical" else set()
@@ -368,8 +376,8 @@ def write_kf_files(findings):
     reg = load_registry()
     for u in reg.get("unit", []):
         if u["kind"].startswith("kani") and u.get("kf_file"):
-            with open(os.path.join(d, u["kf_file"]), "w") as fh:
-                fh.write("fn kf_blocked(%s) -> bool { %s }\n" % (u.get("kf_params", "n: u8"), " || ".join(["false"] + by.get(u["id"], []))))
+            write_atomic(os.path.join(d, u["kf_file"]),
+                         "fn kf_blocked(%s) -> bool { %s }\n" % (u.get("kf_params", "n: u8"), " || ".join(["false"] + by.get(u["id"], []))))
     return d
 
 
